@@ -615,6 +615,18 @@ func cmdCheck(args []string) int {
 						continue
 					}
 					natl := nres.normal()
+					// the engine reports failed assertions after the observations; order the native log the same way
+					{
+						var o, f []string
+						for _, l := range natl {
+							if strings.HasPrefix(l, "ASSERT-FAIL ") || l == "PANIC" {
+								f = append(f, l)
+							} else {
+								o = append(o, l)
+							}
+						}
+						natl = append(o, f...)
+					}
 					if strings.Join(eng, "\n") != strings.Join(natl, "\n") {
 						confMismatch = append(confMismatch, fmt.Sprintf("%s: engine %v != native %v", jid, eng, natl))
 					} else {
